@@ -353,6 +353,7 @@ def p_C02(ctx):
         combos = [("dev", "u32"), ("release", "u32"), ("dev", "elem"), ("release", "elem"), ("release", "zst")]
     acc_replays(ctx, r, combos, "access")
     acc_random(ctx, ["read", "write"], 3000 if ctx.quick else 40000, 12, profile="release")
+    giant_check(ctx, lambda c: c["t"] == "acc")          # giant zero-sized arrays: strides / coordinates near 2^32 .. 2^64
 
 
 def p_C03(ctx):
@@ -376,6 +377,7 @@ def p_C03(ctx):
         r3 = acc_tlc(ctx, "views-depth3", ["view"], [22, 23, 32], kinds=("owned",), depth=3, bigs=(BIG_MAX,), workers=12)
         acc_replays(ctx, r3, [("dev", "u32"), ("release", "u32")], "views-depth3")
     acc_random(ctx, ["read", "write"], 3000 if ctx.quick else 40000, 12, profile="dev")
+    giant_check(ctx, lambda c: c["t"] == "view")
 
 
 MUT_GROUPS = ["write", "prim", "copy", "move", "sortrow", "sortcol"]
@@ -582,14 +584,17 @@ def iter_pipeline(ctx, kinds, what):
 
 def p_C08(ctx):
     iter_pipeline(ctx, ["rows", "rows_mut"], "rows() and rows_mut()")
+    giant_check(ctx, lambda c: c["t"] == "iter" and c["kind"] == "rows")
 
 
 def p_C09(ctx):
     iter_pipeline(ctx, ["col", "col_mut"], "col(c) and col_mut(c) for every column c")
+    giant_check(ctx, lambda c: (c["t"] == "iter" and c["kind"] == "col") or (c["t"] == "acc" and c["op"] == "col_idx"))
 
 
 def p_C10(ctx):
     iter_pipeline(ctx, ["cells", "cells_mut", "into_ref", "into_mut"], "cells(), cells_mut() and the IntoIterator forms on references")
+    giant_check(ctx, lambda c: c["t"] == "iter" and c["kind"] == "cells")
 
 
 
@@ -834,6 +839,33 @@ def algos_check(ctx, which):
     cfg = cfg_text(constants={"TMax": 6 if q else 9, "PMax": 5 if q else 7, "CMax": 4 if q else 5, "Which": set(which)},
                    invariants=["TranslateRefines", "SwapTraceRefines", "CopyWithinRefines"])
     return ctx.tlc_run("algos", "AlgosMC", cfg, workers=8 if q else 12, xmx="8g")
+
+
+
+# --------------------------------------------------------------------------------------
+# giant family (Giant.tla / GiantMC.tla): zero-sized-element arrays with one dimension of h*U + l cells
+# --------------------------------------------------------------------------------------
+def attr_giant(case, fail):
+    t = case.get("t")
+    if t == "iter":
+        props = {{"rows": "C08", "col": "C09", "cells": "C10"}[case["kind"]]}
+    elif t == "view":
+        props = {"C03"}
+    else:
+        props = {"C02"} | ({"C09"} if case.get("op") == "col_idx" else set())
+    return props, {"family": "giant", "t": t, "kind": fail["kind"], "op": case.get("op") or case.get("kind")}
+
+
+def giant_check(ctx, keep):
+    """keep(case) selects the cases relevant to the running property"""
+    cfg = cfg_text(constants={"MaxCalls": 2 if ctx.quick else 3, "Parts": {"iter", "acc"}}, invariants=["RangeInv"])
+    r = ctx.tlc_run("giant", "GiantMC", cfg, workers=8 if ctx.quick else 12, xmx="8g")
+    sel = os.path.join(ctx.outdir, "giant.sel.ndjson")
+    core.filter_cases(r.cases_path, sel, keep)
+    ctx.count_nontrivial(sel, lambda c: c)
+    ctx.sample_from(sel, 1)
+    for prof in ("dev", "release"):
+        ctx.replay(sel, attr_giant, profile=prof, label="giant")
 
 
 
